@@ -14,5 +14,7 @@ UNITS = [
     Unit('F.compute_offset.uf', 'c09', 'verif_f_compute_offset', mode='uf', unwind=10, clause='fixed-size kind: same offset'),
     Unit('F.compute_indices.uf', 'c09', 'verif_f_compute_indices3', mode='uf', unwind=10, clause='fixed-size kind: same indices'),
     Unit('F.product.uf', 'c09', 'verif_f_product', mode='uf', unwind=10, clause='fixed-size kind: same product'),
+    Unit('F32.compute_offset.uf', 'c09', 'verif_f32_compute_offset', mode='uf', unwind=10, clause='fixed-size kind with 32-bit elements: same offset (products carried out in size_t)'),
+    Unit('M32.compute_offset.uf', 'c09', 'verif_m32_compute_offset', mode='uf', unwind=10, clause='mixed 32-bit fixed / bounded kinds: same offset'),
     Unit('M.compute_offset.uf', 'c09', 'verif_m_compute_offset', mode='uf', unwind=10, clause='mixed fixed/bounded kinds: same offset'),
 ] + import_units('C01', names=['stride.uf', 'compute_strides.uf', 'compute_offset.uf', 'compute_indices.uf', 'product.uf'], clause='bounded kind (reference instantiation)')
